@@ -106,7 +106,7 @@ bounded('C09',
         'Level-A part (pyvc, counted in coverage.obligations): the real keymap.encode/encrypt, 8 configurations x call shapes with <=2 positional '
         'and <=2 keyword arguments, symbolic values: the key does not depend on the insertion order of the keyword dict and equals its '
         'specification (98 obligation instances). Bounded (not a proof): over all callable shapes, call forms (positional/keyword spellings, every keyword order, defaults '
-        'spelled out or omitted) and 52 keymap configurations of the stated scope, calls for which CPython binds the same values to '
+        'spelled out or omitted) and 68 keymap configurations (chained keymaps a + b included) of the stated scope, plus reserved parameter names, functions named like a method of their argument and shared vs equal argument objects, calls for which CPython binds the same values to '
         'the same parameters get equal keys from the real key path keymap(*_keygen(f, (), *args, **kwds)).',
         'DESIGN.md 5 C09, 3.8',
         'bounded scope; binding ground truth = calling a stub of the same shape; that every wrapper composes rounded_args -> _keygen -> '
@@ -114,7 +114,7 @@ bounded('C09',
         'follows from C02\'s clause.', TECH_B)
 
 bounded('C10',
-        'Bounded (not a proof): over the same scope with value variants (1, 1.0, True, "1", (1,), b"1"), no key is shared by two calls that '
+        'Bounded (not a proof): over the same scope with value variants (1, 1.0, True, "1", (1,), b"1", the tuple of the positionals, a sibling\'s default; chained keymaps included), no key is shared by two calls that '
         'CPython binds to unequal values, for every configuration the statement lists as information-preserving; typed configurations '
         'also separate equal values of different type.',
         'DESIGN.md 5 C10, 3.8',
